@@ -1459,9 +1459,9 @@ void UniCompiler::emit_3i(UniOpRRR op, const Gp& dst, const Operand_& src1_, con
         }
         else if (dst_is_b) {
           Gp tmp = new_gp32("@tmp");
+          cc->mov(tmp, b.r32());
           if (!dst_is_a)
             cc->mov(dst, a);
-          cc->mov(tmp, b.r32());
           cc->emit(legacy_inst_id, dst, tmp.r8());
         }
         else {
